@@ -321,6 +321,10 @@ func keyC12(c C12Case) []byte {
 	return append(k, c.Src...)
 }
 
-func TestC12(t *testing.T) {
-	Run(t, Prop[C12Case]{ID: "C12", Gen: genC12, Exhaustive: exhaustiveC12, Check: checkC12, Key: keyC12})
+func propC12() Prop[C12Case] {
+	return Prop[C12Case]{ID: "C12", Gen: genC12, Exhaustive: exhaustiveC12, Check: checkC12, Key: keyC12}
 }
+
+func TestC12(t *testing.T) { Run(t, propC12()) }
+
+func FuzzGenC12(f *testing.F) { RunFuzz(f, propC12()) }
